@@ -4980,8 +4980,12 @@ class generated_programs_known(_generated_programs_base):
     has 2 blocks, adjust_chunks specified with 1 blocks' with array.optimize-graph off until the repair a9a805c -- F53, kept as
     a regression program) and a second witness of the known finding F52 (seed 109436, depth 6: the ravel of a take raises
     'cannot reshape array of size 2 into shape (3,)')"""
-    scope = "seeds 109919 and 109436 of the program generator, depth 6"
+    scope = "seeds 109919, 109436, 137996, 158270, 89223 of the program generator"
 
     def domain(tier, rng):
         yield {"seed": 109919, "depth": 6}
         yield {"seed": 109436, "depth": 6}
+        # third to fifth witness of F46: a sliding window over a take -- two of them silently wrong, one raising
+        yield {"seed": 137996, "depth": 4}
+        yield {"seed": 158270, "depth": 6}
+        yield {"seed": 89223, "depth": 4}
